@@ -353,13 +353,18 @@ fn format_case(seed: u64, run: u64, out: &mut RunOut) {
     let cs = 1u64 << cb;
     let rbe = cs * 8 / (1u64 << ro);
     let l1c = (size.div_ceil((cs / 8) * cs) * 8).div_ceil(cs);
-    if size.div_ceil((cs / 8) * cs) * 8 > (32 << 20) || 3 + l1c > rbe {
+    let _ = (l1c, rbe);
+    if size.div_ceil((cs / 8) * cs) * 8 > (32 << 20) {
         out.stats.insert("format_unsupported_skipped".into(), 1);
         return;
     }
     out.geo = format!("cli-format-cb{cb}-ro{ro}");
     out.cfg_hash = hash_str(&format!("{cb}/{ro}/{size}"));
+    crate::props::PANIC_CTX.with(|c| {
+        *c.borrow_mut() = format!("format --size {size_mb} --cluster-bits {cb} --refcount-order {ro}")
+    });
     let buf = crate::rqcow2::v_format_qcow2_buf(size, cb, ro, 512);
+    crate::props::PANIC_CTX.with(|c| c.borrow_mut().clear());
     let v = qspec::check_image(&buf, true);
     if let Some((c, d)) = v.first_problem(false) {
         push(
@@ -369,8 +374,70 @@ fn format_case(seed: u64, run: u64, out: &mut RunOut) {
         );
     } else {
         out.stats.insert("cli_formatted_images".into(), 1);
+        // ... and the library can use it: write at both ends and in the
+        // middle, flush, read back, check the file again
+        if let Err(d) = use_formatted(&buf, size, cs, &mut rng) {
+            push(
+                out,
+                &format!("cli-formatted-image-unusable/{}", d.0),
+                format!("format --size {size_mb} --cluster-bits {cb} --refcount-order {ro}: {}", d.1),
+            );
+        } else {
+            out.stats.insert("cli_formatted_images_used".into(), 1);
+        }
     }
     out.nontrivial = true;
+}
+
+fn use_formatted(buf: &[u8], size: u64, cs: u64, rng: &mut Rng) -> Result<(), (String, String)> {
+    let sim = Sim::new(Chooser::generate(7));
+    sim.core.inline_only.set(true);
+    let fid = sim.add_file(&layer_path(0), PageFile::from_bytes(buf), 512);
+    let _g = sim.enter();
+    let params = Qcow2DevParams::new(9, None, None, false, false);
+    let path = layer_path(0);
+    let dev = match sim.run_one(setup_dev(Path::new(&path), &params), STEP_BUDGET) {
+        Ok(Ok(d)) => d,
+        Ok(Err(e)) => return Err(("open".into(), format!("open failed: {e:?}"))),
+        Err(s) => return Err(("open".into(), format!("open stuck: {s:?}"))),
+    };
+    let gcl = size.div_ceil(cs);
+    let mut spots = vec![0u64, gcl - 1, gcl / 2, rng.below(gcl)];
+    spots.sort();
+    spots.dedup();
+    let len = cs.min(64 << 10).min(size) as usize;
+    for (i, g) in spots.iter().enumerate() {
+        let mut b = qcow2_rs::helpers::Qcow2IoBuf::<u8>::new(len);
+        b.fill(0x40 + i as u8);
+        match sim.run_one(async { dev.write_at(&b, g * cs).await }, STEP_BUDGET) {
+            Ok(Ok(())) => {}
+            Ok(Err(e)) => return Err(("write".into(), format!("write_at({:#x}) failed: {e:?}", g * cs))),
+            Err(s) => return Err(("write".into(), format!("write_at({:#x}) stuck: {s:?}", g * cs))),
+        }
+    }
+    match sim.run_one(async { dev.flush_meta().await }, STEP_BUDGET) {
+        Ok(Ok(())) => {}
+        Ok(Err(e)) => return Err(("flush".into(), format!("flush_meta failed: {e:?}"))),
+        Err(s) => return Err(("flush".into(), format!("flush_meta stuck: {s:?}"))),
+    }
+    for (i, g) in spots.iter().enumerate() {
+        let mut b = qcow2_rs::helpers::Qcow2IoBuf::<u8>::new(len);
+        match sim.run_one(async { dev.read_at(&mut b, g * cs).await }, STEP_BUDGET) {
+            Ok(Ok(n)) if n == len && b.iter().all(|x| *x == 0x40 + i as u8) => {}
+            r => {
+                return Err((
+                    "read".into(),
+                    format!("read_at({:#x}) after write+flush: {:?}", g * cs, r.map(|r| r.map_err(|e| format!("{e:?}")))),
+                ))
+            }
+        }
+    }
+    let img = sim.file_content(fid);
+    let v = qspec::check_image(&img, true);
+    if let Some((c, d)) = v.first_problem(false) {
+        return Err((format!("after-use/{c}"), format!("after 4 writes and flush_meta: {d}")));
+    }
+    Ok(())
 }
 
 pub fn run_cli(p: &Profile, seed: u64, run: u64, ov: &Override, want_case: bool) -> RunOut {
